@@ -111,7 +111,133 @@ pub fn check_emitted(acc: &mut Acc, check: &str, s: &dyn Subject, bytes: &[u8], 
 
 // -------------------------------------------------------------------------------------------------
 
+/// Values whose lengths, counts and chunk sizes need four (thorough: five) varint bytes.  Run by C01, C04, C07, C08 and C15,
+/// each judging its own clause: round trip, bytes == reference, exact consumption before a suffix, rejected truncations,
+/// identical bytes on every sink + exact size.
+pub fn big_values(ctx: &mut Ctx, acc: &mut Acc, check: &str) {
+    let mut sizes: Vec<usize> = vec![(1 << 20) - 1, 1 << 20, (1 << 20) + 1, (1 << 21) - 1, 1 << 21, (1 << 21) + 1];
+    if ctx.thorough() && !cfg!(debug_assertions) {
+        sizes.extend([(1 << 27) - 1, 1 << 27, (1 << 28) - 1, 1 << 28, (1 << 28) + 1]);
+    }
+    // (subject id, path of record field indices to the big leaf, leaf kind)
+    let targets: [(&str, &[usize], char); 9] = [
+        ("String", &[], 's'),
+        ("Vec<u8>", &[], 'b'),
+        ("Bytes", &[], 'b'),
+        ("Vec<i8>", &[], 'q'),
+        ("LinkedList<u8>", &[], 'q'),
+        ("Vec<()>", &[], 'u'),
+        ("DedupMixed", &[3], 's'),   // chunk 0 of an evolved record grows past 2^20 / 2^21 bytes
+        ("MaxSteps", &[1], 's'),     // 254 header entries in front of it
+        ("DedupV0", &[1], 's'),
+    ];
+    let mut k = 0usize;
+    for (id, path, kind) in targets {
+        for size in &sizes {
+            k += 1;
+            if k % ctx.shards != ctx.shard {
+                continue;
+            }
+            if *size > (1 << 21) + 1 && !matches!(kind, 's' | 'b' | 'u') {
+                continue; // element-wise values of 2^27 items would not fit the harness's own Val representation
+            }
+            let Some(s) = ctx.reg.get(id) else {
+                acc.inconclusive(format!("big values: subject {id} missing"));
+                continue;
+            };
+            let ty = s.ty();
+            let leaf = match kind {
+                's' => Val::Str("a".repeat(*size)),
+                'b' => Val::Bytes(vec![0x5a; *size]),
+                'u' => Val::Seq(vec![Val::Unit; (*size).min(1 << 21)]),
+                _ => Val::Seq((0..*size).map(|i| if id.starts_with("Vec<i8>") { Val::I((i % 100) as i128 - 50) } else { Val::U((i % 251) as u128) }).collect()),
+            };
+            // embed the leaf into a small generated value of the subject's type
+            let mut rng = ctx.rng_for(0xB16, id, *size as u64);
+            let small = refmodel::GenCtx { allow_large: false, tz_names: ctx.gen.tz_names.clone(), ..refmodel::GenCtx::default() };
+            let mut v = gen_val(&ty, &mut rng, &small);
+            if path.is_empty() {
+                v = leaf;
+            } else if let Val::Rec(fields) = &mut v {
+                fields[path[0]] = leaf;
+            }
+            let exp = expected(&ty, &v);
+            ctx.crumb(id, "big value", &[]);
+            let s = ctx.reg.get(id).unwrap();
+            let x = s.make(&v);
+            let bytes = match enc(s, x.as_ref(), Sink::ToByteVec) {
+                Call::Ok(b) => b,
+                other => {
+                    acc.violation(format!("{check}|{id}|big_value|encode:{}", other.class()), J::obj().with("check", J::s(check)).with("mode", J::s("big_value")).with("subject", J::s(id)).with("size", J::u(*size as u64)));
+                    continue;
+                }
+            };
+            acc.case(Some(sig(&[id.as_bytes(), &(*size as u64).to_le_bytes()])));
+            let fail = |acc: &mut Acc, what: &str| {
+                acc.violation(
+                    format!("{check}|{id}|big_value|{what}"),
+                    J::obj().with("check", J::s(check)).with("mode", J::s("big_value")).with("subject", J::s(id)).with("size", J::u(*size as u64)).with("encoding_len", J::u(bytes.len() as u64)).with("head", J::s(short(&bytes[..bytes.len().min(48)]))),
+                );
+            };
+            let mut ok = true;
+            match check {
+                "C04" => {
+                    match ref_encode(&ty, &v) {
+                        Ok(r) if r == bytes => {}
+                        _ => {
+                            ok = false;
+                            fail(acc, "bytes_differ_from_reference")
+                        }
+                    }
+                }
+                "C07" => {
+                    let mut buf = bytes.clone();
+                    buf.extend_from_slice(&[0xde, 0xad, 0xbe]);
+                    let (got, rest) = dec_val_rest(s, &buf);
+                    if !(matches!(&got, Call::Ok(g) if canon(&ty, g).ok().as_ref() == Some(&exp)) && rest == 3) {
+                        ok = false;
+                        fail(acc, &format!("consumption:{}:left_{rest}", got.class()));
+                    }
+                }
+                "C08" => {
+                    for cut in [0usize, 1, 2, 3, 4, 5, bytes.len() / 2, bytes.len() - 2, bytes.len() - 1] {
+                        if cut < bytes.len() && !sbase::dec(s, &bytes[..cut]).is_err() {
+                            ok = false;
+                            fail(acc, &format!("prefix_{cut}_not_rejected"));
+                        }
+                    }
+                }
+                "C15" => {
+                    for sink in sbase::ALL_SINKS {
+                        if !matches!(enc(s, x.as_ref(), sink), Call::Ok(b) if b == bytes) {
+                            ok = false;
+                            fail(acc, &format!("sink_{sink:?}_differs"));
+                        }
+                    }
+                    if !matches!(sbase::monitored(None, || s.size(x.as_ref())).0, Call::Ok(n) if n == bytes.len()) {
+                        ok = false;
+                        fail(acc, "size_calculator");
+                    }
+                }
+                _ => {
+                    if !matches!(dec_val(s, &bytes), Call::Ok(g) if canon(&ty, &g).ok().as_ref() == Some(&exp)) {
+                        ok = false;
+                        fail(acc, "roundtrip");
+                    }
+                }
+            }
+            if ok {
+                acc.count("big_values_ok");
+                acc.max("largest_big_value", *size as u64);
+            }
+        }
+    }
+}
+
 pub fn c01(ctx: &mut Ctx, acc: &mut Acc) -> i32 {
+    if ctx.extra.get("only").is_none() {
+        big_values(ctx, acc, "C01");
+    }
     let n = ctx.n(2000, 20_000);
     // the local-time lane (TZ set to a zone with daylight saving by the driver): only types containing DateTime<Local>,
     // only unambiguous local times (values the zone cannot represent are skipped, as the property says)
@@ -203,6 +329,9 @@ pub fn c02(ctx: &mut Ctx, acc: &mut Acc) -> i32 {
 pub fn c04(ctx: &mut Ctx, acc: &mut Acc) -> i32 {
     if ctx.shard == 0 {
         c04_anchors(ctx, acc);
+    }
+    if ctx.extra.get("only").is_none() {
+        big_values(ctx, acc, "C04");
     }
     let n_cat = ctx.n(1000, 10_000);
     let n_der = ctx.n(200, 1000);
@@ -331,6 +460,9 @@ fn c04_anchors(ctx: &mut Ctx, acc: &mut Acc) {
 const SUFFIX_BYTES: [u8; 5] = [0x00, 0x01, 0x7f, 0x80, 0xff];
 
 pub fn c07(ctx: &mut Ctx, acc: &mut Acc) -> i32 {
+    if ctx.extra.get("only").is_none() {
+        big_values(ctx, acc, "C07");
+    }
     let n_cat = ctx.n(400, 4000);
     let n_der = ctx.n(100, 600);
     let subjects: Vec<String> = ctx.my_subjects(|_| true).iter().map(|s| s.id().to_string()).collect();
@@ -475,6 +607,9 @@ pub fn c07(ctx: &mut Ctx, acc: &mut Acc) -> i32 {
 }
 
 pub fn c08(ctx: &mut Ctx, acc: &mut Acc) -> i32 {
+    if ctx.extra.get("only").is_none() {
+        big_values(ctx, acc, "C08");
+    }
     let n_cat = ctx.n(100, 1000);
     let n_der = ctx.n(20, 150);
     let subjects: Vec<String> = ctx.my_subjects(|_| true).iter().map(|s| s.id().to_string()).collect();
